@@ -65,7 +65,13 @@ func (r *Runner) fillExpandConfig(ctx context.Context) {
 				return err
 			}
 			r2 := r.subshell(false)
-			r2.stdout = w
+			// Background commands started inside the substitution inherit its stdout
+			// and write to it from their own goroutines, while w is typically a
+			// [strings.Builder]; serialize the writes, and stop writing once the
+			// substitution is over and the caller reads and reuses the buffer.
+			lw := &lockedWriter{w: w}
+			defer lw.close()
+			r2.stdout = lw
 			r2.stmts(ctx, cs.Stmts)
 			r2.exit.exiting = false // subshells don't exit the parent shell
 			r.lastExpandExit = r2.exit
@@ -157,6 +163,27 @@ func (r *Runner) fillExpandConfig(ctx context.Context) {
 		},
 	}
 	r.updateExpandOpts()
+}
+
+// lockedWriter serializes writes to w, and discards them once closed.
+type lockedWriter struct {
+	mu sync.Mutex
+	w  io.Writer // nil once closed
+}
+
+func (l *lockedWriter) Write(p []byte) (int, error) {
+	l.mu.Lock()
+	defer l.mu.Unlock()
+	if l.w == nil {
+		return len(p), nil
+	}
+	return l.w.Write(p)
+}
+
+func (l *lockedWriter) close() {
+	l.mu.Lock()
+	l.w = nil
+	l.mu.Unlock()
 }
 
 // catShortcutArg checks if a statement is of the form "$(<file)". The redirect
